@@ -335,6 +335,8 @@ class Machine:
             for v in s['vars']:
                 t = v.get('t') or {}
                 init = v.get('init')
+                if 'id' not in v:
+                    raise Unsupported('function-local static %s at %s (state that outlives the call is outside this interpreter; see C20)' % (v.get('name'), loc_str(v)))
                 if t.get('k') in ('record', 'union', 'array'):
                     oid = self.new_obj()
                     fr.vars[v['id']] = (oid, ())
